@@ -9,9 +9,10 @@ import Isotp.Proofs.Fc
           establishes it (sorted slots), `inform` at the same instant keeps it.
   Part B: `ParkInv` — a parked frame sits in a standby state and fits `tx_data_length`;
           one `processTx` pass as seen by these invariants (`StepSpec`), without `StandbyOk`.
-  Part C: `txLoop` and `processLoop`: the window is slid by EVERY iteration (`PassInv`), and a
-          frame still parked at the end of a transmitting pass means the limiter is `Blocked`.
-  Part D: the transmit-only pass releases a parked frame once the window is free.
+  Part C: `txLoop` and `processLoop`: the window is slid by EVERY iteration (`IterSpec.fresh`,
+          `processLoop_pass`), and a frame still parked at the end of a transmitting pass means the
+          limiter is `Blocked` (`LoopPass.blocked`); `ParkInv` / `Fc.TxWf` over sessions.
+  Part D: a transmitting pass releases a parked frame once the window is free (`process_release`).
 -/
 namespace Isotp.C15pass
 open Isotp State Isotp.C15
